@@ -40,7 +40,7 @@ func init() {
 		return ref.Sma(x, I(c, 1))
 	}
 	RegInd(&Ind{
-		Name: "trend.Envelope", In: []string{"X"}, Out: []string{"upper", "middle", "lower"},
+		Name: "trend.Envelope", Periods: []int{1}, In: []string{"X"}, Out: []string{"upper", "middle", "lower"},
 		// cfg = [maKind (0 = SMA, 1 = EMA), period, percentage]
 		Cfgs: func(t bool) [][]float64 {
 			var r [][]float64
@@ -216,7 +216,7 @@ func init() {
 		return ref.Scl(ref.Div(sm(ch), sm(ref.Abs(ch))), 100)
 	}
 	RegInd(&Ind{
-		Name: "trend.Tsi (any Ma)", In: []string{"X"}, Out: []string{"tsi"},
+		Name: "trend.Tsi (any Ma)", Periods: []int{1, 3}, In: []string{"X"}, Out: []string{"tsi"},
 		// cfg = [first smoothing kind, first smoothing period, second smoothing kind, second smoothing period]
 		Cfgs: func(t bool) [][]float64 {
 			var r [][]float64
